@@ -7,7 +7,14 @@
              the abscissa itself, a view of a parameter): the value is the exact integral, the call is linear in such constants, and the caller's
              tensors are bitwise unchanged afterwards.
 
-Added after seeded changes C12-r3-a / C12-r3-b were missed (limits always had the integrand's dtype; integrands always computed a new tensor)."""
+* mixtuple - tuple / list integrands whose COMPONENTS DIFFER IN DTYPE (float32 / float64 in every order, 2 or 3 components of different shapes),
+             limits as python numbers / ints / 0-dim / 1-element tensors (float64 or float32) and mixtures, n = 3..10, every component a random
+             polynomial of degree <= 2n-1 with an exact rational integral: each component is exact to the precision of ITS OWN dtype (a float64
+             component is returned as float64 and is accurate to float64 round-off whatever the precision and position of the other components) and
+             agrees with the same component integrated alone.
+
+Added after seeded changes C12-r3-a / C12-r3-b were missed (limits always had the integrand's dtype; integrands always computed a new tensor) and
+after C12-r6-a (tuple components always shared one dtype)."""
 import random
 from fractions import Fraction
 
@@ -42,6 +49,21 @@ def cases(seed, tier):
         rng = random.Random(sub_seed(seed, "c12xi", i))
         out.append({"group": "extra", "kind": "inf32", "seed": sub_seed(seed, "c12xis", i), "n": [100, 150, 250, 400][i % 4], "range": ["both", "upper", "lower"][(i // 4) % 3],
                     "fam": ["lorentz", "x2lorentz2"][(i // 12) % 2], "lim": rng.choice(["num", "t0"]), "dtype": ["float32", "float32", "float64"][i % 3]})
+    # tuple / list integrands whose components differ in dtype
+    orders = [["f32", "f64"], ["f64", "f32"], ["f32", "f64", "f32"], ["f32", "f32", "f64"], ["f64", "f32", "f64"], ["f32", "f64", "f64"], ["f64", "f64", "f32"]]
+    mforms = ["num", "t0", "t1", "int", "t0f32", "num_t0", "t0_num", "num_t1", "t1_num", "t1f32", "t0f32_t1", "t0_t1"]
+    for i in range(132 if tier == "quick" else 1320):
+        rng = random.Random(sub_seed(seed, "c12xm", i))
+        out.append({"group": "extra", "kind": "mixtuple", "seed": sub_seed(seed, "c12xms", i), "order": orders[i % len(orders)],
+                    "form": mforms[(i // len(orders)) % len(mforms)], "n": rng.randint(3, 10), "style": ["cast", "natural", "pow"][i % 3],
+                    "container": rng.choice(["tuple", "list"]), "maxdeg": rng.random() < 0.6})
+    # precision of the rule with limits of mixed kind: a python number and a float64 tensor (both orders), a float32 and a float64 tensor (both orders),
+    # integrand made of python arithmetic only (its dtype follows the abscissae)
+    pforms = ["num_t0", "t0_num", "num_t1", "t1_num", "int_t0", "t0_int", "t0f32_t0", "t0_t0f32", "t1f32_t0", "num_t0", "int_t1", "t1_t0f32"]
+    for i in range(96 if tier == "quick" else 960):
+        rng = random.Random(sub_seed(seed, "c12xp", i))
+        out.append({"group": "extra", "kind": "limprec", "seed": sub_seed(seed, "c12xps", i), "form": pforms[i % len(pforms)],
+                    "n": rng.choice([1, 2, 3, 4, 5, 8, 16]), "style": ["pure", "pow"][(i // len(pforms)) % 2]})
     return out
 
 
@@ -299,8 +321,202 @@ def run_inf32(desc, obs):
     obs.nontrivial = True
 
 
+MIX_CTOL = 5000.0
+
+
+def _mix_limit(kind, v):
+    if kind == "num":
+        return float(v)
+    if kind == "int":
+        return int(v)
+    dt = torch.float32 if kind.endswith("f32") else DT
+    if kind.startswith("t0"):
+        return torch.tensor(float(v), dtype=dt)
+    return torch.tensor([float(v)], dtype=dt)
+
+
+def run_mixtuple(desc, obs):
+    from xitorch.integrate import quad
+    rng = random.Random(desc["seed"])
+    n, order, form, style = desc["n"], list(desc["order"]), desc["form"], desc["style"]
+    parts = form.split("_")
+    if len(parts) == 1:
+        parts = parts * 2
+    if "int" in parts:
+        xl = rng.randint(-2, 1)
+        xu = xl + rng.randint(1, 3)
+    else:
+        xl = rng.randint(-16, 12) / 8.0             # float32-representable
+        xu = xl + rng.randint(1, 24) / 8.0
+    if rng.random() < 0.35:
+        xl, xu = xu, xl
+    xlo, xuo = _mix_limit(parts[0], xl), _mix_limit(parts[1], xu)
+    X, L = max(abs(xl), abs(xu)), abs(xu - xl)
+    # components: dtype, shape, integer coefficient table (deg+1) x numel (coefficients k/8: exact in float32)
+    shapes_all = [(), (1,), (3,), (2, 2), (1, 3), (2,)]
+    comps = []
+    for d in order:
+        shape = rng.choice(shapes_all if style == "cast" else shapes_all[1:])       # (without the cast a 0-dim float32 constant takes the dtype of x)
+        deg = 2 * n - 1 if desc["maxdeg"] else rng.randint(1, 2 * n - 1)
+        numel = 1
+        for sdim in shape:
+            numel *= sdim
+        ints = [[rng.randint(-16, 16) for _ in range(numel)] for _ in range(deg + 1)]
+        for e in range(numel):
+            if ints[deg][e] == 0:
+                ints[deg][e] = 4
+        dt = torch.float32 if d == "f32" else DT
+        C = (torch.tensor(ints, dtype=torch.float64) / 8.0).reshape((deg + 1,) + tuple(shape)).to(dt)
+        comps.append({"d": d, "dt": dt, "shape": tuple(shape), "deg": deg, "ints": ints, "C": C, "numel": numel})
+
+    def ev(cp, x):
+        x0 = x.reshape(())
+        C, deg = cp["C"], cp["deg"]
+        if style == "cast":
+            x0 = x0.to(cp["dt"])
+        if style == "pow":
+            acc = C[0] + C[1] * x0
+            for k in range(2, deg + 1):
+                acc = acc + C[k] * x0 ** k
+            return acc
+        acc = C[deg]
+        for k in range(deg - 1, -1, -1):
+            acc = acc * x0 + C[k]
+        return acc
+
+    def integrand(x):
+        res = [ev(cp, x) for cp in comps]
+        return tuple(res) if desc["container"] == "tuple" else res
+
+    sig = "".join("L" if d == "f32" else "H" for d in order)
+    mech = "mixtuple:%s:%s:%s" % (sig, form, style)
+    lowfirst = order[0] == "f32"
+    try:
+        with WarnLog():
+            y = quad(integrand, xlo, xuo, n=n)
+    except Exception as e:
+        obs.exc_violation("extra:" + mech, e, n=n, xl=xl, xu=xu)
+        obs.nontrivial = True
+        return
+    obs.nontrivial = True
+    good = isinstance(y, (tuple, list)) and len(y) == len(comps) and all(isinstance(v, torch.Tensor) for v in y)
+    if not obs.check(good, "extra:structure:" + mech, "result is %s of length %s, expected a sequence of %d tensors"
+                     % (type(y).__name__, len(y) if hasattr(y, "__len__") else "?", len(comps))):
+        return
+    worst = {"f32": 0.0, "f64": 0.0}
+    for j, (cp, v) in enumerate(zip(comps, y)):
+        d, eps = cp["d"], torch.finfo(cp["dt"]).eps
+        cm = "%s:comp%s" % (mech, "H" if d == "f64" else "L")
+        if not obs.check(tuple(v.shape) == cp["shape"], "extra:shape:" + cm, "component %d has shape %s, the integrand returns %s" % (j, tuple(v.shape), cp["shape"])):
+            continue
+        if d == "f64":
+            obs.check(v.dtype == torch.float64, "extra:dtype:" + cm, "component %d is computed in float64 by the integrand (the others: %s) but is returned as %s"
+                      % (j, ",".join(order), v.dtype))
+        else:
+            obs.check(v.dtype in (torch.float32, torch.float64), "extra:dtype:" + cm, "float32 component %d is returned as %s" % (j, v.dtype))
+        ref = torch.tensor([_exact([r[e] / 8.0 for r in cp["ints"]], xl, xu) for e in range(cp["numel"])], dtype=torch.float64)
+        scale = torch.tensor([L * sum(abs(r[e]) / 8.0 * X ** k for k, r in enumerate(cp["ints"])) for e in range(cp["numel"])], dtype=torch.float64)
+        ratio = float(((v.detach().double().reshape(-1) - ref).abs() / (eps * scale)).max())
+        worst[d] = max(worst[d], ratio)
+        obs.check(ratio <= MIX_CTOL, "extra:value:" + cm,
+                  "component %d (%s, shape %s, degree %d) of a %s-valued integrand with component dtypes (%s), n=%d on [%s, %s]: error %.3e eps(%s) x scale - "
+                  "not exact to the precision of this component" % (j, d, cp["shape"], cp["deg"], desc["container"], ",".join(order), n, xl, xu, ratio, d), n=n)
+        obs.count("extra_mixtuple_components_checked")
+        if d == "f64":
+            obs.count("extra_mixtuple_f64_components_checked")
+        # the same component integrated alone
+        try:
+            with WarnLog():
+                ya = quad(lambda x: ev(cp, x), xlo, xuo, n=n)
+        except Exception as e:
+            obs.exc_violation("extra:alone:" + cm, e, n=n)
+            continue
+        # (a single 0-dim output integrated between 1-element limits comes back with the limits' shape (1,): only the number of elements is compared)
+        if obs.check(isinstance(ya, torch.Tensor) and ya.numel() == cp["numel"], "extra:alone_shape:" + cm, "component %d integrated alone: %r" % (j, getattr(ya, "shape", ya))):
+            ra = float(((v.detach().double().reshape(-1) - ya.detach().double().reshape(-1)).abs() / (eps * scale)).max())
+            obs.check(ra <= 2 * MIX_CTOL, "extra:alone_differs:" + cm, "component %d (%s) inside the %s differs from the same integrand integrated alone by %.3e eps(%s) x scale"
+                      % (j, d, desc["container"], ra, d), n=n)
+            worst[d] = max(worst[d], ra / 2)
+            obs.count("extra_mixtuple_alone_compared")
+    obs.count("extra_mixtuple_compared")
+    if lowfirst:
+        obs.count("extra_mixtuple_lowprec_first")
+    obs.note(n=n, worst_f32_over_eps_scale=worst["f32"], worst_f64_over_eps_scale=worst["f64"])
+
+
+def run_limprec(desc, obs):
+    """one limit is a float64 tensor: the interval is the one given (a float64 endpoint is not rounded to single precision), the polynomial is integrated
+    to float64 round-off and the swapped call gives the opposite value - whichever of the two limits the float64 tensor is"""
+    from xitorch.integrate import quad
+    rng = random.Random(desc["seed"])
+    n, form, style = desc["n"], desc["form"], desc["style"]
+    deg = min(2 * n - 1, 7)
+    coefs = [rng.randint(-16, 16) / 8.0 for _ in range(deg + 1)]
+    if coefs[deg] == 0:
+        coefs[deg] = 0.5
+    fa, fb = form.split("_")
+
+    def value(kind, lo, hi):
+        if kind == "int":
+            return rng.randint(int(lo), int(hi))
+        if kind.endswith("f32"):
+            return rng.randint(int(lo * 8), int(hi * 8)) / 8.0
+        return rng.uniform(lo, hi)              # a double that is not representable in single precision
+    xl = value(fa, -2, 1)
+    xu = value(fb, xl + 1, xl + 3)
+    if rng.random() < 0.4:
+        xl, xu, fa, fb = xu, xl, fb, fa          # reversed orientation (the limit kinds go with their values: keys use the kinds as finally given)
+    xlo, xuo = _mix_limit(fa, xl), _mix_limit(fb, xu)
+    form = fa + "_" + fb
+
+    if style == "pure":
+        def f(x):
+            acc = coefs[deg]
+            for k in range(deg - 1, -1, -1):
+                acc = coefs[k] + x * acc
+            return acc
+    else:
+        def f(x):
+            acc = coefs[0] + coefs[1] * x
+            for k in range(2, deg + 1):
+                acc = acc + coefs[k] * x ** k
+            return acc
+    mech = "limprec:%s:%s" % (form, style)
+    obs.nontrivial = True
+    try:
+        with WarnLog():
+            y = quad(f, xlo, xuo, n=n)
+            ysw = quad(f, xuo, xlo, n=n)
+    except Exception as e:
+        obs.exc_violation("extra:" + mech, e, n=n)
+        return
+    if not obs.check(all(isinstance(v, torch.Tensor) and v.numel() == 1 and v.dtype.is_floating_point for v in (y, ysw)), "extra:shape:" + mech, "results %r, %r" % (y, ysw)):
+        return
+    ref = _exact(coefs, xl, xu)
+    scale = abs(xu - xl) * sum(abs(ck) * max(abs(xl), abs(xu)) ** k for k, ck in enumerate(coefs))
+    tol = 5000 * 2.3e-16 * scale
+    obs.check(y.dtype == torch.float64 and ysw.dtype == torch.float64, "extra:dtype:" + mech,
+              "one of the limits is a float64 tensor but the results are %s (limits %s) and %s (limits swapped)" % (y.dtype, form, ysw.dtype))
+    err = abs(float(y) - ref)
+    obs.check(err <= tol, "extra:value:" + mech, "degree-%d polynomial with %d points on [%r, %r] given as %s/%s: error %.3e (%.2e eps64 x scale) - the float64 limit "
+              "was not used in float64" % (deg, n, xl, xu, fa, fb, err, err / (2.2e-16 * scale)), n=n)
+    esw = abs(float(y) + float(ysw))
+    obs.check(esw <= tol, "extra:swap:" + mech, "quad over [xl, xu] = %.17g, over [xu, xl] = %.17g: not opposite (sum %.3e = %.2e eps64 x scale)"
+              % (float(y), float(ysw), esw, esw / (2.2e-16 * scale)), n=n)
+    obs.count("extra_limprec_compared")
+    if fa in ("num", "int"):
+        obs.count("extra_limprec_number_lower")
+    obs.note(n=n, limprec_worst_over_eps_scale=max(err, esw) / (2.2e-16 * scale))
+
+
 def run_case(desc):
     obs = Obs(desc)
+    if desc["kind"] == "limprec":
+        run_limprec(desc, obs)
+        return obs.result()
+    if desc["kind"] == "mixtuple":
+        run_mixtuple(desc, obs)
+        return obs.result()
     if desc["kind"] == "bckopts":
         run_bckopts(desc, obs)
         return obs.result()
